@@ -316,7 +316,7 @@ class WireWorld(World):
                    "only byte-format memoryview annotation values are generated",
                    "a caller-supplied FLAGS_COMPRESSED / FLAGS_CORR_ID bit is treated as 'managed by the codec' (10% of messages)",
                    "retryable errnos come in bursts of at most 3; timeouts are not part of this property"]
-    QUICK_RUNS = 12000
+    QUICK_RUNS = 10000
     CHUNK = 250
     SHRINK_LISTS = ["cases"]
 
@@ -607,6 +607,29 @@ class WireWorld(World):
                 p["cfg"][k] = v
                 yield p
         for i, c in enumerate(plan["cases"]):
+            if c.get("k") == "conc":
+                ths = c.get("threads") or []
+                if len(ths) > 2:
+                    for t in range(len(ths)):
+                        p = copy.deepcopy(plan)
+                        del p["cases"][i]["threads"][t]
+                        yield p
+                for t, th in enumerate(ths):
+                    for k in range(len(th.get("msgs") or [])):
+                        if len(th["msgs"]) > 1:
+                            p = copy.deepcopy(plan)
+                            del p["cases"][i]["threads"][t]["msgs"][k]
+                            yield p
+                    tr = th.get("tr") or {}
+                    if tr.get("mode", "full") != "full" or tr.get("p_err") or tr.get("p_short"):
+                        p = copy.deepcopy(plan)
+                        p["cases"][i]["threads"][t]["tr"] = {"mode": "full", "eof": True}
+                        yield p
+                    if th.get("corr"):
+                        p = copy.deepcopy(plan)
+                        p["cases"][i]["threads"][t]["corr"] = None
+                        yield p
+                continue
             if c.get("k") == "sweep":
                 # a sweep is the union of single-offset stream cases: find the one that matters
                 for o in range(640):
@@ -801,6 +824,19 @@ class WireWorld(World):
         if any(a1 < b2 and a2 < b1 and t1 != t2 for n, (a1, b1, t1) in enumerate(iv) for a2, b2, t2 in iv[n + 1:]):
             ctx.probe("concurrent_overlap")
         # ---- oracle: every thread sees only its own messages
+        def blame(ti, th, rec, kind, key, msg):
+            """a wrong result that the same thread body also produces when it runs alone is a plain codec defect"""
+            rec2 = {"enc": [], "dec": [], "done": False, "left": 0}
+            worker(ti, th, rec2)
+            same = len(rec2["enc"]) == len(rec["enc"]) and len(rec2["dec"]) == len(rec["dec"]) and \
+                all((a[2] == b[2]) if isinstance(a[2], bytes) else type(a[2]) is type(b[2]) for a, b in zip(rec["enc"], rec2["enc"])) and \
+                all((a == b) if isinstance(a, dict) else type(a) is type(b) for a, b in zip(rec["dec"], rec2["dec"])) and \
+                rec.get("hang") == rec2.get("hang") and rec["left"] == rec2["left"]
+            if same:
+                ctx.violate("decode-mismatch", "in-thread:" + key, msg + " [the thread body gives the same result when run alone]")
+            else:
+                ctx.violate(kind, key, msg + " [run alone, the same thread body gives a different result]")
+
         for ti, (th, rec) in enumerate(zip(case.get("threads") or [], recs)):
             specs = th.get("msgs") or []
             enc_ok = True
@@ -811,14 +847,14 @@ class WireWorld(World):
                        "corr": bytes.fromhex(th["corr"]) if th.get("corr") else None, "data": _bytes(spec.get("pay"))}
                 skip = ("corr",) if spec["flags"] & F_CORR else ()
                 if not isinstance(out, bytes):
-                    ctx.violate("cross-thread-corruption", "encoder", "case %d thread %d message %d: SendingMessage raised %r while "
+                    blame(ti, th, rec, "cross-thread-corruption", "encoder", "case %d thread %d message %d: SendingMessage raised %r while "
                                 "other threads were building messages" % (i, ti, k, out))
                     enc_ok = False
                     break
                 rk, rf = ref_parse(out, 0, BIG, exact=True)
                 d = _diff(rf, exp, skip) if rk == "msg" else rk
                 if d:
-                    ctx.violate("cross-thread-corruption", "encoder", "case %d thread %d message %d: the bytes built by this thread are "
+                    blame(ti, th, rec, "cross-thread-corruption", "encoder", "case %d thread %d message %d: the bytes built by this thread are "
                                 "not its own message (reference parser: %s%s); header %s" % (
                                     i, ti, k, d, "" if rk != "msg" else " = %s, this thread encoded %s" % (_short(rf[d]), _short(exp[d])),
                                     out[:40].hex()))
@@ -827,21 +863,21 @@ class WireWorld(World):
                 if k < len(rec["dec"]):
                     dec = rec["dec"][k]
                     if not isinstance(dec, dict):
-                        ctx.violate("cross-thread-corruption", "decoder", "case %d thread %d message %d: bytes are this thread's own "
+                        blame(ti, th, rec, "cross-thread-corruption", "decoder", "case %d thread %d message %d: bytes are this thread's own "
                                     "well-formed message but decoding raised %r" % (i, ti, k, dec))
                         enc_ok = False
                         break
                     d = _diff(dec, exp, skip)
                     if d:
-                        ctx.violate("cross-thread-corruption", "decoder", "case %d thread %d message %d: field %s decoded as %s, this "
+                        blame(ti, th, rec, "cross-thread-corruption", "decoder", "case %d thread %d message %d: field %s decoded as %s, this "
                                     "thread encoded %s (bytes were correct)" % (i, ti, k, d, _short(dec[d]), _short(exp[d])))
                         enc_ok = False
                         break
             if enc_ok:
                 if rec.get("hang"):
-                    ctx.violate("hang", "concurrent", "case %d thread %d: the reader asked for more bytes than were sent" % (i, ti))
+                    blame(ti, th, rec, "cross-thread-corruption", "hang", "case %d thread %d: the reader asked for more bytes than were sent" % (i, ti))
                 elif len(rec["dec"]) != len(rec["enc"]) or rec["left"]:
-                    ctx.violate("cursor-mismatch", "concurrent", "case %d thread %d: %d messages built, %d decoded, %d bytes left"
+                    blame(ti, th, rec, "cross-thread-corruption", "cursor", "case %d thread %d: %d messages built, %d decoded, %d bytes left"
                                 % (i, ti, len(rec["enc"]), len(rec["dec"]), rec["left"]))
 
     # ---------------------------------------------------------------- sender side
